@@ -404,6 +404,7 @@ def body_extract(ctx, nreq, policy, conv, blank=False, pdim=None):
     if conv == 'cf1d':
         ds = builders.cf1d(2, 2, data_vars={'temp': (('t', 'y', 'x'), numpy.arange(8.0).reshape(2, 2, 2) + 0.5),
                                             'count': (('y', 'x'), numpy.arange(4, dtype='int32').reshape(2, 2)),
+                                            'flag': (('y', 'x'), numpy.array([[200, 206], [213, 7]], dtype='uint8')),
                                             'packed': (('y', 'x'), numpy.array([[1.0, 2.0], [3.0, 4.0]]))}).assign_coords(time=t)
         # stored as scaled integers whose fill value is 0
         ds['packed'].encoding.update(dtype='int16', _FillValue=numpy.int16(0), scale_factor=0.5)
